@@ -654,7 +654,7 @@ fn wide_scenario(spec: &SoloSpec, seed: u64, k: u64) -> Scenario {
     let (obj, low) = [(3usize, true), (3, false), (2, true), (2, false), (0, true), (0, false)][(k % 6) as usize];
     let rank = (k / 6) as usize;
     let mut idx: Vec<usize> = (0..pats.len())
-        .filter(|&i| !pats[i].pat.is_empty() && (pats[i].protocol <= 1) == low && pats[i].score[obj] >= 700 && (pats[i].score[1] <= 8 || obj == 2 || obj == 0))
+        .filter(|&i| !pats[i].pat.is_empty() && !pats[i].once && (pats[i].protocol <= 1) == low && pats[i].score[obj] >= 700 && (pats[i].score[1] <= 8 || obj == 2 || obj == 0))
         .collect();
     idx.sort_by(|&a, &b| pats[b].score[obj].cmp(&pats[a].score[obj]).then(pats[a].protocol.cmp(&pats[b].protocol)).then(pats[a].pat.cmp(&pats[b].pat)));
     let Some(&pi) = idx.get(rank).or(idx.first()) else {
@@ -705,44 +705,64 @@ fn deep_base_count(spec: &SoloSpec, tier: Tier) -> u64 {
 #[derive(Clone, Debug)]
 pub struct Pattern {
     pub protocol: u8,
+    /// false: the bytes repeat forever (a stuck / looping source); true: the bytes come once and the
+    /// source is exhausted afterwards (a short input with a huge opcode budget)
+    pub once: bool,
     pub pat: Vec<u8>,
     /// measured in the probe: nesting depth, max stack depth, max open MARKs, max memo size, output bytes
-    pub score: [u32; 6],
+    pub score: [u32; 7],
 }
 
-pub const OBJECTIVES: [&str; 6] = ["nesting-depth", "stack-depth", "open-marks", "memo-size", "output-bytes", "framed-output-bytes"];
+pub const OBJECTIVES: [&str; 7] = ["nesting-depth", "stack-depth", "open-marks", "memo-size", "output-bytes", "framed-output-bytes", "mark-burial-depth"];
 
-fn probe_pattern(p: u8, pat: &[u8]) -> [u32; 6] {
+/// the fuzzer script of a pattern for a run of n opcodes
+pub fn pattern_script(pat: &[u8], once: bool, n: usize) -> Vec<u8> {
+    if pat.is_empty() {
+        vec![]
+    } else if once {
+        pat.to_vec()
+    } else {
+        (0..n + 64).map(|j| pat[j % pat.len()]).collect()
+    }
+}
+
+fn probe_pattern(p: u8, pat: &[u8], once: bool) -> [u32; 7] {
     tick();
     let probe = 800usize;
     let mut c = Config::default_for(p);
     c.min_opcodes = probe;
     c.max_opcodes = probe;
-    let script: Vec<u8> = if pat.is_empty() { vec![] } else { (0..probe + 64).map(|j| pat[j % pat.len()]).collect() };
+    let script = pattern_script(pat, once, probe);
     let sc = Scenario::solo(c, Entropy::Bytes(script));
     let recs = exec::run_scenario(&sc, Trace::Off, false);
-    let Some(b) = recs.first().and_then(|r| r.outcome.bytes()) else { return [0; 6] };
+    let Some(b) = recs.first().and_then(|r| r.outcome.bytes()) else { return [0; 7] };
     let (ops, err) = crate::lexer::lex(b);
     if err.is_some() {
-        return [0, 0, 0, 0, b.len() as u32, 0];
+        return [0, 0, 0, 0, b.len() as u32, 0, 0];
     }
     // one pass of the reference machine, tracking the extremes
     let mut m = crate::machine::Machine::new();
     m.track_graph = true;
     m.lenient_memo = true;
     let (mut max_stack, mut max_marks, mut max_memo) = (0u32, 0u32, 0u32);
+    let mut burial = 0u32;
     for op in &ops {
         if m.step(op).is_err() {
             break;
         }
         max_stack = max_stack.max(m.stack.len() as u32);
+        if m.stack.len() % 16 == 0 {
+            if let Some(i) = m.stack.iter().position(|s| s.is_mark()) {
+                burial = burial.max((m.stack.len() - 1 - i) as u32);
+            }
+        }
         max_memo = max_memo.max(m.memo.len() as u32);
         if op.name() == "MARK" {
             max_marks = max_marks.max(m.stack.iter().filter(|s| s.is_mark()).count() as u32);
         }
     }
     let framed = ops.iter().take(2).any(|o| o.name() == "FRAME");
-    [m.max_depth, max_stack, max_marks, max_memo, b.len() as u32, if framed { b.len() as u32 } else { 0 }]
+    [m.max_depth, max_stack, max_marks, max_memo, b.len() as u32, if framed { b.len() as u32 } else { 0 }, burial]
 }
 
 // ------------------------------------------------------------------------------------------
@@ -917,25 +937,28 @@ pub fn pair_probe_scenario(i: usize) -> Option<Scenario> {
 /// when PFSIM_PROBE_PROGRESS is set (the isolated probing child of the C09 check) every probe is
 /// announced on stdout, so that a probe that kills or hangs the child can be attributed
 fn probe_progress(i: usize, p: &u8, pat: &[u8], begin: bool) {
+    probe_progress_full(i, p, pat, false, begin)
+}
+
+fn probe_progress_full(i: usize, p: &u8, pat: &[u8], once: bool, begin: bool) {
     use std::io::Write;
     use std::sync::OnceLock;
     static ON: OnceLock<bool> = OnceLock::new();
     if *ON.get_or_init(|| std::env::var("PFSIM_PROBE_PROGRESS").is_ok()) {
         let o = std::io::stdout();
         let mut o = o.lock();
-        let _ = writeln!(o, "{} {} {} {}", if begin { "PB" } else { "PE" }, i, p, desc::hex(pat));
+        let _ = writeln!(o, "{} {} {} {}{}", if begin { "PB" } else { "PE" }, i, p, if once { "once:" } else { "" }, desc::hex(pat));
         let _ = o.flush();
     }
 }
 
 /// the probe run of a pattern as a scenario (for attributing a death or hang of the probing child)
-pub fn probe_scenario(p: u8, pat: &[u8]) -> Scenario {
+pub fn probe_scenario(p: u8, pat: &[u8], once: bool) -> Scenario {
     let probe = 800usize;
     let mut c = Config::default_for(p);
     c.min_opcodes = probe;
     c.max_opcodes = probe;
-    let script: Vec<u8> = if pat.is_empty() { vec![] } else { (0..probe + 64).map(|j| pat[j % pat.len()]).collect() };
-    Scenario::solo(c, Entropy::Bytes(script))
+    Scenario::solo(c, Entropy::Bytes(pattern_script(pat, once, probe)))
 }
 
 /// compute the probe table now (used by the isolated probing child)
@@ -958,11 +981,11 @@ fn deep_patterns(seed: u64) -> &'static Vec<Pattern> {
                                 .iter()
                                 .filter_map(|e| {
                                     let sc = e[2].as_array()?;
-                                    let mut score = [0u32; 6];
-                                    for (i, x) in sc.iter().enumerate().take(6) {
+                                    let mut score = [0u32; 7];
+                                    for (i, x) in sc.iter().enumerate().take(7) {
                                         score[i] = x.as_u64()? as u32;
                                     }
-                                    Some(Pattern { protocol: e[0].as_u64()? as u8, pat: desc::unhex(e[1].as_str()?).ok()?, score })
+                                    Some(Pattern { protocol: e[0].as_u64()? as u8, once: e[3].as_bool().unwrap_or(false), pat: desc::unhex(e[1].as_str()?).ok()?, score })
                                 })
                                 .collect();
                             if !pats.is_empty() {
@@ -973,16 +996,18 @@ fn deep_patterns(seed: u64) -> &'static Vec<Pattern> {
                 }
             }
         }
-        let mut cands: Vec<(u8, Vec<u8>)> = vec![];
+        let mut cands: Vec<(u8, Vec<u8>, bool)> = vec![];
         for p in 0..6u8 {
-            cands.push((p, vec![])); // the exhausted source
+            cands.push((p, vec![], false)); // the exhausted source
             for b in 0..=255u8 {
-                cands.push((p, vec![b]));
+                cands.push((p, vec![b], false));
+                // one choice byte, then exhausted: a tiny input with a huge opcode budget
+                cands.push((p, vec![b], true));
             }
             let mut rng = mix::rng_from(desc::derive_seed(seed, "deep.patterns", p as u64));
             for _ in 0..96 {
                 let n = rng.random_range(2..=3);
-                cands.push((p, (0..n).map(|_| rng.random()).collect()));
+                cands.push((p, (0..n).map(|_| rng.random()).collect(), false));
             }
         }
         let nt = n_threads();
@@ -994,10 +1019,10 @@ fn deep_patterns(seed: u64) -> &'static Vec<Pattern> {
                         let mut out = vec![];
                         let mut i = t;
                         while i < cands.len() {
-                            let (p, pat) = &cands[i];
-                            probe_progress(i, p, pat, true);
-                            out.push((i, Pattern { protocol: *p, pat: pat.clone(), score: probe_pattern(*p, pat) }));
-                            probe_progress(i, p, pat, false);
+                            let (p, pat, once) = &cands[i];
+                            probe_progress_full(i, p, pat, *once, true);
+                            out.push((i, Pattern { protocol: *p, once: *once, pat: pat.clone(), score: probe_pattern(*p, pat, *once) }));
+                            probe_progress_full(i, p, pat, *once, false);
                             i += nt;
                         }
                         out
@@ -1022,7 +1047,7 @@ fn deep_schedule(seed: u64) -> &'static Vec<(usize, usize)> {
         let pats = deep_patterns(seed);
         let mut order: Vec<(usize, usize)> = vec![];
         let mut used = std::collections::HashSet::new();
-        let ranked: Vec<Vec<Vec<usize>>> = (0..6)
+        let ranked: Vec<Vec<Vec<usize>>> = (0..7)
             .map(|obj| {
                 [0u8..=1, 2u8..=3, 4u8..=5]
                     .iter()
@@ -1035,7 +1060,7 @@ fn deep_schedule(seed: u64) -> &'static Vec<(usize, usize)> {
             })
             .collect();
         for rank in 0..pats.len() {
-            for obj in 0..6 {
+            for obj in 0..7 {
                 for g in 0..3 {
                     if let Some(&i) = ranked[obj][g].get(rank) {
                         if pats[i].score[obj] > 0 && used.insert(i) {
@@ -1065,7 +1090,7 @@ pub fn export_deep_patterns_to(seed: u64, path: &str) {
     let path = path.to_string();
     let pairs = pair_patterns(seed);
     let idx = PAIR_INDEX.get().cloned().unwrap_or_default();
-    let doc = json!({"seed": seed.to_string(), "patterns": pats.iter().map(|p| json!([p.protocol, desc::hex(&p.pat), p.score.to_vec()])).collect::<Vec<_>>(),
+    let doc = json!({"seed": seed.to_string(), "patterns": pats.iter().map(|p| json!([p.protocol, desc::hex(&p.pat), p.score.to_vec(), p.once])).collect::<Vec<_>>(),
         "pairs": pairs.iter().zip(idx.iter()).map(|(p, i)| json!([i, p.unfolded_log2, p.nesting])).collect::<Vec<_>>()});
     if std::fs::write(&path, doc.to_string()).is_ok() {
         std::env::set_var("PFSIM_DEEP_FILE", &path);
@@ -1103,7 +1128,7 @@ fn tail_variant_scenario(spec: &SoloSpec, seed: u64, tier: Tier, k: u64) -> Scen
     let pats = deep_patterns(seed);
     let order = deep_schedule(seed);
     // patterns in schedule order, skipping the exhausted source (it has no periodic phase)
-    let periodic: Vec<(usize, usize)> = order.iter().copied().filter(|(i, _)| !pats[*i].pat.is_empty()).collect();
+    let periodic: Vec<(usize, usize)> = order.iter().copied().filter(|(i, _)| !pats[*i].pat.is_empty() && !pats[*i].once).collect();
     let (pi, obj) = periodic[((k / 64) as usize) % periodic.len()];
     let b = (k % 64) as u8;
     let pat = &pats[pi];
@@ -1155,11 +1180,12 @@ fn deep_scenario_base(spec: &SoloSpec, seed: u64, tier: Tier, k: u64) -> Scenari
     // the others cost O(n * stack) and cross the interesting thresholds (8 192, 10 000, 128 KiB) early
     let n = match (tier, obj) {
         (Tier::Quick, 0) => rng.random_range(28_000..36_000usize),
-        (Tier::Quick, _) => rng.random_range(10_500..12_500usize),
+        // 17 000..19 000 crosses 8 192, 10 000 and 16 384 (and, for most patterns, 64 and 128 KiB of output)
+        (Tier::Quick, _) => rng.random_range(17_000..19_000usize),
         (Tier::Thorough, 0) => [12_000usize, 20_000, 30_000, 40_000, 50_000][(k % 5) as usize],
         (Tier::Thorough, _) => [9_000usize, 11_000, 16_000, 22_000, 30_000][(k % 5) as usize],
     };
-    let script: Vec<u8> = if pat.pat.is_empty() { vec![] } else { (0..n + 64).map(|j| pat.pat[j % pat.pat.len()]).collect() };
+    let script = pattern_script(&pat.pat, pat.once, n);
     let mut c = Config::default_for(pat.protocol);
     c.min_opcodes = n;
     c.max_opcodes = n;
@@ -1168,7 +1194,7 @@ fn deep_scenario_base(spec: &SoloSpec, seed: u64, tier: Tier, k: u64) -> Scenari
         at: 0,
         detail: format!(
             "{} script {:02x?} chosen for {} (probe scores nesting/stack/marks/memo/bytes = {:?}), {} opcodes",
-            if pat.pat.is_empty() { "exhausted".to_string() } else { format!("periodic (period {})", pat.pat.len()) },
+            if pat.pat.is_empty() { "exhausted".to_string() } else if pat.once { "one-byte-then-exhausted".to_string() } else { format!("periodic (period {})", pat.pat.len()) },
             pat.pat,
             OBJECTIVES[obj],
             pat.score,
